@@ -17,6 +17,9 @@ import traceback
 
 VERIF = os.path.dirname(os.path.dirname(os.path.abspath(__file__)))
 REPO = os.environ.get("VERIF_REPO", "/repo")
+# VERIF_REPO / VERIF_OUTDIR are for testing the machinery against seeded changes in a scratch worktree only (tools/seed_run_wt.sh):
+# the registered commands never set them, so evidence always comes from /repo itself
+OUTDIR = os.environ.get("VERIF_OUTDIR", VERIF)
 NCPU = int(os.environ.get("VERIF_JOBS", "0")) or min(16, os.cpu_count() or 1)
 
 
@@ -100,7 +103,7 @@ class Ctx:
         self._viol_keys.add(key)
         path = None
         if len(self.violations) < self.max_reported:
-            d = os.path.join(VERIF, "replays", self.prop)
+            d = os.path.join(OUTDIR, "replays", self.prop)
             os.makedirs(d, exist_ok=True)
             path = os.path.join(d, digest([key, jsonable(case)]) + ".json")
             with open(path, "w") as fh:
@@ -133,7 +136,7 @@ class Ctx:
             "wall_s": round(time.time() - self.t0, 2),
             "violations": len(self.violations),
         }
-        d = os.path.join(VERIF, "evidence")
+        d = os.path.join(OUTDIR, "evidence")
         os.makedirs(d, exist_ok=True)
         path = os.path.join(d, self.prop + ".json")
         tmp = path + ".tmp%d" % os.getpid()
